@@ -1,12 +1,16 @@
 import Rscp.Props.C07
+import Rscp.Props.C07b
 import Rscp.Tie.Client
 import Rscp.Tie.Reader
+import Rscp.Tie.Crypt
 
 #print axioms Rscp.Props.C07.fed_is_prefix
 #print axioms Rscp.Props.C07.segmentation_invariant
 #print axioms Rscp.Props.C07.one_piece
 #print axioms Rscp.Props.C07.complete_reply_returned
 #print axioms Rscp.Props.C07.receive_no_panic
+#print axioms Rscp.Props.C07.cipher_transparent
+#print axioms Rscp.Props.C07.encrypted_reply_returned
 #print axioms Rscp.Tie.Client.shape_rscp_NewClient
 #print axioms Rscp.Tie.Client.shape_rscp_Client_resetCipher
 #print axioms Rscp.Tie.Client.shape_rscp_Client_send
@@ -54,3 +58,5 @@ import Rscp.Tie.Reader
 #print axioms Rscp.Tie.Reader.leaf_Read_complete_args
 #print axioms Rscp.Tie.Reader.leaf_Read_badCrc_src
 #print axioms Rscp.Tie.Reader.leaf_Read_badCrc_args
+#print axioms Rscp.Tie.Crypt.shape_rscp_createAESKey
+#print axioms Rscp.Tie.Crypt.shape_rscp_newIV
